@@ -14,8 +14,8 @@ From Oras Require Import Base.Prelude Generated.GC12 Model.TarRoundTrip Model.Fi
    included -- is the path of the source tree: same kind, bytes, link target, and mode (minus
    the umask unless PreservePermissions); nothing else exists, and extraction does not fail.
    For every tree with distinct names per directory, modes within 07777 (files AND directories),
-   and relative symlinks that stay inside and do not pass through other symlinks or regular
-   files ([benign_tree], see C12_link_through_link_refuted); any child order; any umask with
+   and relative symlinks that stay inside and do not pass through other symlinks
+   ([benign_tree], see C12_link_through_link_refuted); any child order; any umask with
    PreservePermissions, any umask within 0777 without (the kernel keeps no other bits).
    [extract] = extractTarDirectory with restoreDirModes: directories are created with
    mode | 0700 and get their recorded mode after the last entry. *)
@@ -69,16 +69,22 @@ Theorem C12_roundtrip_unprivileged :
 Proof. exact roundtrip_unprivileged. Qed.
 Print Assumptions C12_roundtrip_unprivileged.
 
-(* Known finding "link-through-file-rejected": a dangling relative link through a regular file
-   of the tree is refused when the file is extracted first, restored when it comes later. *)
-Theorem C12_link_through_file_refuted :
-  benign_tree [b "d"] (through_file_tree "a") = false /\
-  wf_treeb (through_file_tree "a") = true /\ modes_okb (through_file_tree "a") = true /\
-  extract [b "d"] 18 false (tar_entries [b "d"] true (through_file_tree "a")) = Err XSymlinkDir /\
+(* Finding "link-through-file-rejected", fixed in the repository: a dangling relative link whose
+   target passes through a regular file of the tree (or through a component longer than
+   NAME_MAX: "link-target-name-too-long") was refused when that file had been extracted before
+   it, because resolveRelToBase returned the ENOTDIR / ENAMETOOLONG of its Lstat walk
+   ([check_dirs_prefix]); such a directory cannot exist, so nothing there can be a symbolic
+   link: it is now treated like a missing one and the tree restores in either order. *)
+Theorem C12_link_through_file_prefix_refuted :
+  (let f := [([b "a"], NFile (b "x") 420)] in
+   check_dirs_prefix f [] [b "a"; b "x"; b "y"] = false /\ check_dirs f [] [b "a"; b "x"; b "y"] = true) /\
+  benign_tree [b "d"] (through_file_tree "a") = true /\
+  (exists f', extract [b "d"] 18 false (tar_entries [b "d"] true (through_file_tree "a")) = Ok f' /\
+     fs_lookup f' [b "l"] = Some (NLink (b "a/x/y")) /\ fs_lookup f' [b "a"] = Some (NFile (b "x") 420)) /\
   exists f', extract [b "d"] 18 false (tar_entries [b "d"] true (through_file_tree "z")) = Ok f' /\
     fs_lookup f' [b "l"] = Some (NLink (b "z/x/y")) /\ fs_lookup f' [b "z"] = Some (NFile (b "x") 420).
-Proof. exact through_file_refuted. Qed.
-Print Assumptions C12_link_through_file_refuted.
+Proof. exact through_file_prefix_refuted. Qed.
+Print Assumptions C12_link_through_file_prefix_refuted.
 
 (* The state of the directory when the extraction stops ([extract_partial]: the entries before
    the failing one, directories still with their creation mode) belongs to the same run as the
